@@ -162,6 +162,16 @@ class SubMeta(ht.MetadataNode):
         self.payload = ["user data"]
 
 
+class BadRepr:
+    """Not a child value - and it cannot even be described: repr() and str() of it raise (a proxy to a closed resource, a
+    half-initialised object)."""
+
+    def __repr__(self):
+        raise RuntimeError("repr() of this object fails")
+
+    __str__ = __repr__
+
+
 class ResourceMeta(ht.MetadataNode):
     """A user's metadata node that holds things which can be shared but not duplicated (a lock, a generator, a module)."""
 
@@ -449,6 +459,7 @@ def _build(r):
                 "bytearray": lambda: bytearray(b"ab"), "memoryview": lambda: memoryview(b"ab"), "frozenset": lambda: frozenset([1]),
                 "generator": lambda: (x for x in ("g1", "g2")), "iterator": lambda: iter(["i1", "i2"]), "map": lambda: map(str, [1, 2]),
                 "dictkeys": lambda: {"k1": 1}.keys(), "dictitems": lambda: {"k1": 1}.items(), "enumerate": lambda: enumerate(["e"]),
+                "badrepr": BadRepr,
                 "function": lambda: (lambda: "x"), "exception": lambda: ValueError("v"), "module": lambda: __import__("json")}[t]()
     raise ValueError(k)
 
